@@ -167,3 +167,13 @@ pub proof fn lemma_ipow_mono(b: int, m: int, n: int)
     lemma_ipow_pos(b, m);
     if m < n { lemma_ipow_mono(b, m + 1, n); assert(ipow(b, m + 1) == b * ipow(b, m)); assert(b * ipow(b, m) >= ipow(b, m)) by (nonlinear_arith) requires b >= 1, ipow(b, m) >= 1; }
 }
+// (2^g)^n = 2^(g n)
+pub proof fn lemma_pow_radix(g: int, n: int)
+    requires 1 <= g <= 4, n >= 0
+    ensures ipow(p2(g), n) == p2(g * n)
+    decreases n
+{
+    lemma2_to64();
+    if n == 0 { assert(p2(0) == 1); assert(g * 0 == 0); } else { lemma_pow_radix(g, n - 1); lemma_p2_add(g, g * (n - 1)); assert(g + g * (n - 1) == g * n) by (nonlinear_arith);
+        assert(g * (n - 1) >= 0) by (nonlinear_arith) requires g >= 1, n >= 1; }
+}
